@@ -2,6 +2,8 @@ import NavisModel.Proofs.HealLemmas
 import NavisModel.Proofs.HealMinLemmas
 import NavisModel.Proofs.HealStitchLemmas
 import NavisModel.Proofs.HealStitchWfLemmas
+import NavisModel.Proofs.HealCheckerLemmas
+import NavisModel.Gen.Heal
 /-!
 # C11 — healing and stitching connect fragments minimally and lose nothing
 
@@ -92,6 +94,20 @@ theorem heal_maxdist (t : Table) (o : Opts) : ∀ e ∈ healAdded t o,
   unfold withinMax at this
   rw [hm] at this
   simpa using this
+
+/-- **`max_dist = 0` is a limit like any other**: no pair of nodes is strictly closer than 0, so healing adds no edge
+and the result has exactly the edges (and roots) of the input. -/
+theorem heal_zero_limit (t : Table) (hw : WF t) (o : Opts) (h0 : o.maxD2 = some 0) :
+    healAdded t o = [] ∧ (uedges (heal t o)).Perm (uedges t) ∧ (roots (heal t o)).length = (roots t).length := by
+  have hnil : healAdded t o = [] := by
+    apply List.eq_nil_iff_forall_not_mem.mpr
+    intro e he
+    have := (heal_maxdist t o e he).2.2 0 h0
+    omega
+  have hp := (heal_spec hw o).2
+  have hr := heal_roots_count hw o
+  rw [hnil] at hp hr
+  exact ⟨hnil, by simpa [addedU] using hp, by simpa using hr⟩
 
 /-- The bridging edges form a spanning forest of the fragment quotient graph: they are candidate edges,
 acyclic on the fragments (Kruskal's union–find invariant), and they connect the two fragments of every
@@ -266,6 +282,299 @@ theorem combine_is_concat (mIx : Nat) (l : List Skel) :
     (stitchRemap mIx l).length = l.length :=
   ⟨rfl, rfl, by unfold stitchRemap; exact stitchGo_length _ _ _ _⟩
 
+
+/-! ### second pass: the algorithm as written, option handling, checkers on navis' own output -/
+
+/-- **Candidate edges as written.**  `_stitch_mst` asks the kd-tree of fragment `a` for the nearest node of every
+node of fragment `b` (`distance_upper_bound=max_dist`: strictly closer) and takes the `argmin` of the answers.
+The pair it finds is an admissible pair that is minimal among ALL admissible node pairs of the two fragments, it
+finds none exactly when no pair is admissible, and the quotient graph built this way IS the specification-style
+quotient graph (`quotientEdges`: minimum over all node pairs, then the `max_dist` test) — hence every theorem above
+about `healAdded` (spanning forest, `kruskal_minimal` against arbitrary allowed connections, cut property) is a
+theorem about the algorithm as written. -/
+theorem kd_candidates_refine (t : Table) (o : Opts) :
+    quotientEdgesKD t o = quotientEdges t o ∧
+    healAdded t o = (if (roots t).length ≤ 1 then [] else kruskal (quotientEdgesKD t o)) ∧
+    (∀ ca cb fa fb r, kdPair ca cb fa fb o = some r →
+      r ∈ pairEdges ca cb fa fb ∧ withinMax o r = true ∧
+        ∀ e ∈ pairEdges ca cb fa fb, withinMax o e = true → r.d2 ≤ e.d2) ∧
+    (∀ ca cb fa fb, kdPair ca cb fa fb o = none → ∀ e ∈ pairEdges ca cb fa fb, withinMax o e = false) := by
+  refine ⟨quotientEdgesKD_eq t o, by rw [quotientEdgesKD_eq]; rfl, ?_, fun ca cb fa fb h => kdPair_none h⟩
+  intro ca cb fa fb r h
+  obtain ⟨h1, h2, h3⟩ := kdPair_some h
+  exact ⟨h1, h2, fun e he hw => CEdge.le_d2 (h3 e he hw)⟩
+
+/-- **The lightest edge between two fragments is the only one a minimum spanning forest needs**: any list of allowed
+connections can be replaced, edge by edge, by nearest-pair (quotient) edges that are at most as long and join the
+same fragments — so restricting the MST to one nearest pair per fragment pair loses nothing. -/
+theorem nearest_pairs_suffice (t : Table) (hw : WF t) (o : Opts) (T' : List CEdge) (hT' : ∀ e ∈ T', Allowed t o e)
+    (w : Nat → Nat) (hmono : ∀ x y, x ≤ y → w x ≤ w y) :
+    ∃ T, (∀ q ∈ T, q ∈ quotientEdges t o) ∧ (∀ a b, Conn (qE T') a b → Conn (qE T) a b) ∧
+      (T.map fun e => w e.d2).sum ≤ (T'.map fun e => w e.d2).sum := by
+  obtain ⟨T, h1, h2, h3⟩ := allowed_list_to_quot hw w hmono T' hT'
+  exact ⟨T, h1, fun a b h => h.mono h2, h3⟩
+
+/-- `drop_disc=True`: the result is a well-formed forest with at most one root; it is the healed neuron when that is
+one tree, otherwise the piece of a LARGEST remaining fragment. -/
+theorem heal_drop_disc (t : Table) (hw : WF t) (o : Opts) :
+    WF (healDrop t o) ∧ (roots (healDrop t o)).length ≤ 1 ∧
+    ((roots (heal t o)).length ≤ 1 → healDrop t o = heal t o) ∧
+    (1 < (roots (heal t o)).length → ∃ r ∈ roots (heal t o),
+      healDrop t o = subsetIds (heal t o) (fragment (heal t o) r) ∧
+      ∀ r' ∈ roots (heal t o), (fragment (heal t o) r').length ≤ (fragment (heal t o) r).length) :=
+  healDrop_spec hw o
+
+/-- `drop_fluff` keeps WHOLE connected components: each meets `keep_size`, they form a prefix of the eligible
+components in decreasing size (no dropped eligible component is larger than a kept one), `n_largest` bounds their
+number and the default keeps exactly the first. -/
+theorem drop_fluff_whole_fragments (t : Table) (hw : WF t) (keep : Option (Nat × Nat)) (nl : Option Nat) :
+    dropFluff t keep nl = subsetIds t (fluffSel t keep nl).flatten ∧ WF (dropFluff t keep nl) ∧
+    (∀ f ∈ fluffSel t keep nl, f ∈ fragments t) ∧
+    (∀ k, keep = some k → ∀ f ∈ fluffSel t keep nl, k.1 ≤ f.length * k.2) ∧
+    (∃ n, fluffSel t keep nl =
+      ((sortBySize (fragments t)).filter fun c => match keep with
+        | some k => decide (k.1 ≤ c.length * k.2) | none => true).take n ∧
+      (nl = none → keep = none → n = 1) ∧ (∀ m, nl = some m → n = m)) ∧
+    (sortBySize (fragments t)).Pairwise (fun a b => b.length ≤ a.length) := by
+  obtain ⟨h1, h2, h3, h4⟩ := fluffSel_spec t keep nl
+  exact ⟨dropFluff_eq t keep nl, by rw [dropFluff_eq]; exact WF_subset hw _, h1, h2, h3, h4⟩
+
+/-- Master selection of `stitch_skeletons`: `'FIRST'` is index 0; `'LARGEST'` (and `'SOMA'` when no neuron has a
+soma) is the FIRST neuron of maximal node count; `'SOMA'` is the FIRST neuron with a soma. -/
+theorem master_selection (m : MasterS) (l : List Skel) (hs : List Bool) (hne : l ≠ []) (hlen : hs.length = l.length) :
+    ∃ s, l[masterIxS m l hs]? = some s ∧
+      (m = .first → masterIxS m l hs = 0) ∧
+      ((m = .largest ∨ (m = .soma ∧ ∀ b ∈ hs, b = false)) →
+        (∀ x ∈ l, x.nodes.length ≤ s.nodes.length) ∧
+        ∀ k x, k < masterIxS m l hs → l[k]? = some x → x.nodes.length < s.nodes.length) ∧
+      ((m = .soma ∧ ∃ b ∈ hs, b = true) →
+        hs[masterIxS m l hs]? = some true ∧ ∀ k, k < masterIxS m l hs → hs[k]? = some false) := by
+  have htake : hs.take l.length = hs := by rw [← hlen]; exact List.take_length
+  obtain ⟨sl, hl1, hl2, hl3⟩ := largestIx_spec l hne
+  cases m with
+  | first =>
+    cases l with
+    | nil => exact absurd rfl hne
+    | cons s rest =>
+      refine ⟨s, by simp [masterIxS], fun _ => rfl, ?_, ?_⟩
+      · rintro (h | ⟨h, _⟩) <;> cases h
+      · rintro ⟨h, _⟩; cases h
+  | largest =>
+    refine ⟨sl, hl1, fun h => (by cases h), fun _ => ⟨hl2, hl3⟩, ?_⟩
+    rintro ⟨h, _⟩; cases h
+  | soma =>
+    cases hf : firstTrue hs with
+    | none =>
+      have hm : masterIxS .soma l hs = largestIx l := by simp [masterIxS, htake, hf]
+      rw [hm]
+      refine ⟨sl, hl1, fun h => (by cases h), fun _ => ⟨hl2, hl3⟩, ?_⟩
+      rintro ⟨_, b, hb, rfl⟩
+      exact absurd (firstTrue_none hf true hb) (by simp)
+    | some i =>
+      have hm : masterIxS .soma l hs = i := by simp [masterIxS, htake, hf]
+      rw [hm]
+      obtain ⟨h1, h2⟩ := firstTrue_some hf
+      have hi : i < l.length := by
+        rw [← hlen]
+        exact (List.getElem?_eq_some_iff.mp h1).1
+      refine ⟨l[i], by simp [hi], fun h => (by cases h), ?_, fun _ => ⟨h1, h2⟩⟩
+      rintro (h | ⟨_, hall⟩)
+      · cases h
+      · have := hall true (List.mem_of_getElem? h1)
+        simp at this
+
+/-- `combine_neurons` on meshes (`trimesh.util.concatenate`): the faces of the `k`-th mesh reappear shifted by the
+number of vertices of the meshes before it, and no face is added. -/
+theorem combine_mesh_faces (meshes : List (Nat × List (Nat × Nat × Nat))) (k : Nat) (m : Nat × List (Nat × Nat × Nat))
+    (hk : meshes[k]? = some m) :
+    (∀ f ∈ m.2, (f.1 + ((meshes.take k).map (·.1)).sum, f.2.1 + ((meshes.take k).map (·.1)).sum,
+        f.2.2 + ((meshes.take k).map (·.1)).sum) ∈ concatFaces 0 meshes) ∧
+    (concatFaces 0 meshes).length = (meshes.map (·.2.length)).sum := by
+  refine ⟨?_, length_concatFaces meshes 0⟩
+  intro f hf
+  simpa using mem_concatFaces meshes 0 k m hk f hf
+
+/-! #### checkers evaluated by the driver on navis' own output -/
+
+/-- `healOKPB` (no demand on the row order) is sound. -/
+theorem healOKPB_checker_sound (t u : Table) (m : Option Nat) (h : healOKPB t u m = true) :
+    (u.map key).Perm (t.map key) ∧ WF u ∧
+    (∀ e ∈ uedges t, e ∈ uedges u) ∧
+    (newEdges t u).length + (roots u).length = (roots t).length ∧
+    ∀ e ∈ newEdges t u, ∃ d, edgeD2 t e = some d ∧ ∀ k, m = some k → d ≤ k :=
+  healOKPB_sound t u m h
+
+/-- **Minimality on navis' own output.**  If `healMinOKB` accepts navis' table `u` for the input `t`, then every edge
+`u` has in addition to `t` is an allowed connection (allowed nodes of two different fragments, strictly closer than
+`max_dist`), and their total weight is minimal — for every monotone weight of the squared length — among ALL lists of
+allowed connections that join whatever the allowed connections can join. -/
+theorem healMinOKB_checker_sound (t u : Table) (hw : WF t) (o : Opts) (h : healMinOKB t u o = true) :
+    (∀ e ∈ newCE t u, Allowed t o e) ∧ (newCE t u).length = (newEdges t u).length ∧
+    ((newCE t u).map (·.d2)).Perm ((healAdded t o).map (·.d2)) ∧
+    ∀ (T : List CEdge), (∀ e ∈ T, Allowed t o e) → (∀ c ∈ quotientEdges t o, Conn (qE T) c.fa c.fb) →
+      ∀ w : Nat → Nat, (∀ x y, x ≤ y → w x ≤ w y) →
+        ((newCE t u).map fun e => w e.d2).sum ≤ (T.map fun e => w e.d2).sum :=
+  healMinOKB_sound hw h
+
+/-- **Stitch / combine on navis' own output** (`method='NONE'`, `combine_neurons`).  If `stitchOKB` accepts navis'
+combined skeleton `out` for the inputs `l`, then there is ONE id map per input such that: all ids of `out` are
+distinct; each map is injective on its input's ids, fixes root markers and is the identity on the master; every
+input row reappears with its coordinates, its id and its parent under that map, every connector and every tag entry
+under the same map; and `out` contains nothing else (its rows / connectors / tag entries are exactly the remapped
+inputs'). -/
+theorem stitchOKB_sound (l : List Skel) (mIx : Nat) (out : Skel) (md : Option Nat)
+    (h : stitchOKB l mIx out false md = true) :
+    ∃ maps : List (List (Int × Int)),
+      (ids out.nodes).Nodup ∧ maps.length = l.length ∧
+      (∀ k s m, l[k]? = some s → maps[k]? = some m →
+        (∀ a ∈ ids s.nodes, ∀ b ∈ ids s.nodes, remapId m a = remapId m b → a = b) ∧
+        (∀ a, a < 0 → remapId m a = a) ∧ (k = mIx → ∀ a ∈ ids s.nodes, remapId m a = a) ∧
+        (∀ n ∈ s.nodes, (remapId m n.id, remapId m n.parent, n.x, n.y, n.z) ∈ out.nodes.map nkey) ∧
+        (∀ c ∈ s.conns, (c.1, remapId m c.2) ∈ out.conns) ∧
+        (∀ tg ∈ s.tags, ∀ i ∈ tg.2, (tg.1, remapId m i) ∈ tagPairs out.tags)) ∧
+      (out.nodes.map nkey).Perm (((remapAll l maps).flatMap (·.nodes)).map nkey) ∧
+      out.conns.Perm ((remapAll l maps).flatMap (·.conns)) ∧
+      (tagPairs out.tags).Perm (tagPairs ((remapAll l maps).flatMap (·.tags))) := by
+  unfold stitchOKB at h
+  have hex : ∃ maps, stitchOKWith l maps mIx out false md = true := by
+    rcases (Bool.or_eq_true _ _).mp h with h | h <;> exact ⟨_, h⟩
+  obtain ⟨maps, hm⟩ := hex
+  obtain ⟨h1, h2, h3, h4, h5, h6⟩ := stitchOKWith_sound hm
+  refine ⟨maps, h1, h2, ?_, h4, h5, h6⟩
+  intro k s m hs hmm
+  obtain ⟨p1, p2, p3⟩ := stitch_input_present h4 h5 h6 hs hmm
+  exact ⟨(h3 k s m hs hmm).inj, (h3 k s m hs hmm).neg, (h3 k s m hs hmm).master, p1, p2, p3⟩
+
+/-- … and for `method ≠ 'NONE'`: the node table is an admissible healing (same rows, well-formed forest, every edge
+of every input kept under its map, one new edge per merged fragment, no new edge longer than `max_dist`) of the
+remapped inputs; connectors and tags as above. -/
+theorem stitchOKB_sound_fused (l : List Skel) (mIx : Nat) (out : Skel) (md : Option Nat)
+    (h : stitchOKB l mIx out true md = true) :
+    ∃ maps : List (List (Int × Int)),
+      (ids out.nodes).Nodup ∧ maps.length = l.length ∧
+      (∀ k s m, l[k]? = some s → maps[k]? = some m →
+        (∀ a ∈ ids s.nodes, ∀ b ∈ ids s.nodes, remapId m a = remapId m b → a = b) ∧
+        (∀ a, a < 0 → remapId m a = a) ∧ (k = mIx → ∀ a ∈ ids s.nodes, remapId m a = a)) ∧
+      ((out.nodes.map Heal.key).Perm (((remapAll l maps).flatMap (·.nodes)).map Heal.key) ∧ WF out.nodes ∧
+        (∀ e ∈ uedges ((remapAll l maps).flatMap (·.nodes)), e ∈ uedges out.nodes) ∧
+        (newEdges ((remapAll l maps).flatMap (·.nodes)) out.nodes).length + (roots out.nodes).length =
+          (roots ((remapAll l maps).flatMap (·.nodes))).length ∧
+        ∀ e ∈ newEdges ((remapAll l maps).flatMap (·.nodes)) out.nodes,
+          ∃ d, edgeD2 ((remapAll l maps).flatMap (·.nodes)) e = some d ∧ ∀ k, md = some k → d ≤ k) ∧
+      out.conns.Perm ((remapAll l maps).flatMap (·.conns)) ∧
+      (tagPairs out.tags).Perm (tagPairs ((remapAll l maps).flatMap (·.tags))) := by
+  unfold stitchOKB at h
+  have hex : ∃ maps, stitchOKWith l maps mIx out true md = true := by
+    rcases (Bool.or_eq_true _ _).mp h with h | h <;> exact ⟨_, h⟩
+  obtain ⟨maps, hm⟩ := hex
+  obtain ⟨h1, h2, h3, h4, h5, h6⟩ := stitchOKWith_sound_fused hm
+  refine ⟨maps, h1, h2, ?_, healOKPB_sound _ _ _ h4, h5, h6⟩
+  intro k s m hs hmm
+  exact ⟨(h3 k s m hs hmm).inj, (h3 k s m hs hmm).neg, (h3 k s m hs hmm).master⟩
+
+/-! #### facts re-extracted from the current source (`translator/gen_heal.py` → `Gen/Heal.lean`) -/
+
+/-- `heal_skeleton`: the accepted methods (upper-cased first), the defaults, which `_stitch_mst` keyword receives
+which argument (healing is done in place on the copy), `max_dist` is mapped through the neuron's units, `drop_disc`
+keeps `x.subtrees[0]` when more than one tree is left. -/
+theorem gen_heal_options :
+    Gen.Heal.healMethods = ["LEAFS", "ALL"] ∧ Gen.Heal.healMethodUpper = true ∧
+    Gen.Heal.healDefaults = [("method", "'ALL'"), ("max_dist", "None"), ("min_size", "None"), ("drop_disc", "False"),
+      ("mask", "None"), ("inplace", "False")] ∧
+    Gen.Heal.healForward = [("inplace", "True"), ("mask", "mask"), ("max_dist", "max_dist"), ("min_size", "min_size"),
+      ("nodes", "method")] ∧
+    Gen.Heal.healCopiesUnlessInplace = true ∧ Gen.Heal.healMaxDistMapUnits = true ∧
+    Gen.Heal.dropDiscSource = "x.subtrees" ∧ Gen.Heal.dropDiscIndex = 0 ∧ Gen.Heal.dropDiscGuard = ">1" :=
+  ⟨rfl, rfl, rfl, rfl, rfl, rfl, rfl, rfl, rfl⟩
+
+/-- `_stitch_mst`: a boolean mask is turned into node IDS (not row positions), mask and node list are matched against
+the `node_id` column, `'LEAFS'` means `type ∈ {end, root}`. -/
+theorem gen_mask_and_methods :
+    Gen.Heal.boolMaskColumn = "node_id" ∧ Gen.Heal.maskFilterColumn = "node_id" ∧
+    Gen.Heal.listFilterColumn = "node_id" ∧ Gen.Heal.leafsLiteral = "LEAFS" ∧ Gen.Heal.leafColumn = "type" ∧
+    Gen.Heal.leafTypes = ["end", "root"] ∧ Gen.Heal.leafsLiteral ∈ Gen.Heal.healMethods :=
+  ⟨rfl, rfl, rfl, rfl, rfl, rfl, by decide⟩
+
+/-- The `min_size` test of the source is the model's (`isCand`: `min_size ≤ size of the node's fragment`), sizes
+are counted on all nodes before the method / mask filters. -/
+theorem gen_min_size (t : Table) (o : Opts) (n : Node) (k : Nat) (hk : o.minSize = some k)
+    (h : isCand t o n = true) :
+    Gen.Heal.minSizeKeeps (fragSize t (fragOf t n.id)) k = true ∧ Gen.Heal.minSizeCountsAllNodes = true := by
+  refine ⟨?_, rfl⟩
+  unfold isCand at h
+  rw [hk] at h
+  simp only [Bool.and_eq_true, decide_eq_true_eq] at h
+  unfold Gen.Heal.minSizeKeeps
+  exact decide_eq_true h.1.1
+
+theorem gen_min_size_iff (s k : Nat) : Gen.Heal.minSizeKeeps s k = decide (k ≤ s) := rfl
+
+/-- The kd-tree query is bounded by `max_dist`, the pair is the `argmin` over the query distances with consistent
+index bookkeeping, the quotient graph has one edge per fragment pair weighted by that distance, the MST runs on it,
+and the added node-level edges are the recorded node pairs; a single component is returned untouched; only the
+non-numeric sentinels `True` / `False` / `None` mean "no limit" — every number, 0 included, is a limit. -/
+theorem gen_candidate_generation :
+    Gen.Heal.queryUpperBound = "max_dist" ∧ Gen.Heal.argminOverQueryDistances = true ∧
+    Gen.Heal.pairIndexing = true ∧ Gen.Heal.allFragmentPairs = true ∧ Gen.Heal.mstWeightIsDistance = true ∧
+    Gen.Heal.addedEdgesFromPairNodes = true ∧ Gen.Heal.singleComponentReturnsInput = true ∧
+    Gen.Heal.unlimitedMaxDist = ["True", "False", "None"] ∧ Gen.Heal.numericMaxDistIsLimit = true ∧
+    Gen.Heal.rewireInplaceArg = "inplace" :=
+  ⟨rfl, rfl, rfl, rfl, rfl, rfl, rfl, rfl, rfl, rfl⟩
+
+/-- **The id-clash remap of the source is the model's `clashMap`**: clashing ids are `seen ∩ this`, the neuron's own
+ids are united into the seen set BEFORE `max(seen)` is taken, the fresh ids are `max + 1, max + 2, …`, and the fresh
+ids (not the clashing ones) are added to the seen set afterwards. -/
+theorem gen_stitch_clash (seen this : List Int) :
+    clashMap seen this =
+      ((this.filter fun i => seen.contains i).zipIdx.map fun ck =>
+        (ck.1, Gen.Heal.freshId (maxOf (seen ++ this)) ck.2)) ∧
+    Gen.Heal.clashSet = "seen & this" ∧ Gen.Heal.ownIdsSeenBeforeMax = true ∧ Gen.Heal.freshMaxOf = "seen_tn" ∧
+    Gen.Heal.freshCount = "len(non_unique)" ∧ Gen.Heal.newMap = "dict(zip(non_unique, new_tn))" ∧
+    Gen.Heal.freshAddedToSeen = ["new_tn"] ∧ Gen.Heal.freshAddedAfterFormula = true ∧
+    Gen.Heal.seenInit = "set(m.nodes.node_id)" ∧ Gen.Heal.skipMaster = true ∧
+    Gen.Heal.duplicateGuardColumnIsNodeId = true := by
+  refine ⟨?_, rfl, rfl, rfl, rfl, rfl, rfl, rfl, rfl, rfl, rfl⟩
+  unfold clashMap
+  apply List.map_congr_left
+  intro ck _
+  unfold Gen.Heal.freshId
+  congr 1
+  omega
+
+/-- Node ids, connector node ids, tags and parent ids all go through `new_map.get(k, k)` (unknown keys — in
+particular root markers — map to themselves); the tables are concatenated in list order over all neurons; tags are
+appended. -/
+theorem gen_stitch_remap :
+    Gen.Heal.remapTargets = [("nodes.node_id", true, "node_id"), ("connectors.node_id", true, "node_id"),
+      ("tags", true, "tags"), ("nodes.parent_id", true, "parent_id")] ∧
+    Gen.Heal.concatNodes = ("n.nodes", "nl") ∧ Gen.Heal.concatConnectors = ("n.connectors", "nl") ∧
+    Gen.Heal.tagsAppended = true ∧ Gen.Heal.stitchCopiesInputs = true :=
+  ⟨rfl, rfl, rfl, rfl, rfl⟩
+
+/-- Master names, defaults and picks are the model's `masterIxS`; `'NONE'` returns before `_stitch_mst`, which otherwise
+receives `nodes=method`, `max_dist`; `combine_neurons` is `stitch_skeletons(method='NONE', master='FIRST')`. -/
+theorem gen_master_and_methods :
+    Gen.Heal.allowedMaster = ["SOMA", "LARGEST", "FIRST"] ∧ Gen.Heal.masterUpper = true ∧
+    Gen.Heal.stitchDefaults = [("method", "'ALL'"), ("master", "'SOMA'"), ("max_dist", "None")] ∧
+    Gen.Heal.somaPick = "first-with-soma" ∧ Gen.Heal.somaFallsBackToLargest = true ∧
+    Gen.Heal.largestKey = "n_nodes" ∧ Gen.Heal.largestReverse = true ∧ Gen.Heal.largestIndex = 0 ∧
+    Gen.Heal.firstIndex = 0 ∧ Gen.Heal.noneLiteral = "NONE" ∧
+    Gen.Heal.stitchForward = [("inplace", "False"), ("max_dist", "max_dist"), ("nodes", "method")] ∧
+    Gen.Heal.combineArgs = [("master", "FIRST"), ("method", "NONE")] :=
+  ⟨rfl, rfl, rfl, rfl, rfl, rfl, rfl, rfl, rfl, rfl, rfl, rfl⟩
+
+/-- `break_fragments` / `drop_fluff`: largest first; a component is kept iff `min_size ≤ size` / `keep_size ≤ size`
+(the model's tests); `keep_size < 1` is a fraction of the node count; `n_largest` takes a prefix; the default keeps
+component 0; `drop_fluff` keeps disconnected connectors. -/
+theorem gen_fragment_sizes (size k num den : Nat) :
+    Gen.Heal.breakLargestFirst = true ∧ Gen.Heal.fluffLargestFirst = true ∧
+    Gen.Heal.breakKeeps size k = decide (k ≤ size) ∧ Gen.Heal.fluffKeeps size k = decide (k ≤ size * 1) ∧
+    Gen.Heal.fluffIsFraction num den = decide (num < den) ∧ Gen.Heal.fluffFractionOfNodeCount = true ∧
+    Gen.Heal.fluffPrefixSlice = true ∧ Gen.Heal.fluffDefaultIndex = 0 ∧ Gen.Heal.fluffKeepDiscCn = "True" := by
+  refine ⟨rfl, rfl, rfl, ?_, ?_, rfl, rfl, rfl, rfl⟩
+  · unfold Gen.Heal.fluffKeeps; simp
+  · unfold Gen.Heal.fluffIsFraction; simp
+
 /-! ### Non-vacuity -/
 
 /-- three fragments: a 3-chain, a 2-chain, an isolated node -/
@@ -281,6 +590,8 @@ example : (roots (heal ex {})).length = 1 := by decide
 /-- `max_dist = 10` excludes the pair at distance exactly 10, `max_dist² = 101` admits it -/
 example : healAdded ex { maxD2 := some 100 } = [] := by decide
 example : (healAdded ex { maxD2 := some 101 }).map (fun e => (e.a, e.b)) = [(7, 1)] := by decide
+/-- `max_dist = 0` connects nothing -/
+example : healAdded ex { maxD2 := some 0 } = [] ∧ (heal ex { maxD2 := some 0 }).map (fun n => (n.id, n.parent)) = ex.map (fun n => (n.id, n.parent)) := by decide
 example : (healAdded ex { method := .leafs, mask := some [5, 6, 1, 3] }).map (fun e => (e.a, e.b, e.d2)) =
     [(5, 1, 136), (1, 3, 1256)] := by decide
 example : healOKB ex (heal ex {}) none = true := by decide
@@ -326,5 +637,41 @@ tagged node of the second skeleton was not remapped and the master's lists were 
 /-- `method = [3, 6]` (ids of the combined table): only the bridge between the two listed nodes is allowed -/
 example : (healAdded (combine 0 [sa, sb]).nodes { method := .list [3, 6] }).map (fun e => (e.a, e.b, e.d2)) = [(3, 6, 441)] := by decide
 example : (healAdded (combine 0 [sa, sb]).nodes {}).map (fun e => (e.a, e.b, e.d2)) = [(1, 4, 400)] := by decide
+
+/-! second pass -/
+example : quotientEdgesKD ex {} = quotientEdges ex {} := by decide
+example : (quotientEdgesKD ex { maxD2 := some 1062 }).map (fun e => (e.a, e.b, e.d2)) = [(7, 1, 100), (2, 3, 1061)] := by decide
+example : healMinOKB ex (heal ex {}) {} = true := by decide
+example : healMinOKB ex (heal ex { maxD2 := some 101 }) { maxD2 := some 101 } = true := by decide
+/-- a healing that is admissible for `healOKB` but NOT minimal (5–1, squared length 136, instead of 7–1, 100) -/
+def exBad : Table :=
+  [⟨5, -1, 0, 0, 0, .root⟩, ⟨6, 5, 3, 0, 0, .branch⟩, ⟨7, 6, 6, 0, 0, .end_⟩,
+   ⟨1, 5, 6, 10, 0, .slab⟩, ⟨2, 1, 9, 10, 0, .slab⟩, ⟨3, 2, 40, 0, 0, .end_⟩]
+example : healOKB ex exBad none = true ∧ healOKPB ex exBad.reverse none = true ∧ healMinOKB ex exBad {} = false := by decide
+/-- an edge that uses a node outside the mask is rejected -/
+example : healMinOKB ex (heal ex {}) { mask := some [5, 6, 1, 2, 3] } = false := by decide
+example : (roots (healDrop ex { maxD2 := some 101 })).length = 1 ∧ (healDrop ex { maxD2 := some 101 }).length = 5 := by decide
+example : fluffSel ex none none = [[5, 6, 7]] ∧ fluffSel ex (some (2, 1)) none = [[5, 6, 7], [1, 2]] ∧
+    fluffSel ex none (some 2) = [[5, 6, 7], [1, 2]] := by decide
+example : stitchOKB [sa, sb] 0 (combine 0 [sa, sb]) false none = true := by decide
+example : stitchOKB [sa, sb] 0 (stitch 0 [sa, sb] {}) true none = true := by decide
+example : stitchOKB [sa, sb] 1 (combine 0 [sa, sb]) false none = false := by decide   -- the master's ids were changed
+/-- partial clash, the non-master neuron owns larger non-clashing ids (seeded change C11_2): the model's fresh ids
+avoid them; the table navis produced under that change (`4, 5` handed out twice) is rejected. -/
+def pa : Skel := ⟨[⟨1, -1, 0, 0, 0, .root⟩, ⟨2, 1, 1, 0, 0, .slab⟩, ⟨3, 2, 2, 0, 0, .end_⟩], [], []⟩
+def pb : Skel := ⟨[⟨2, -1, 0, 10, 0, .root⟩, ⟨3, 2, 1, 10, 0, .slab⟩, ⟨4, 3, 2, 10, 0, .branch⟩, ⟨5, 4, 3, 10, 0, .end_⟩,
+  ⟨6, 4, 4, 10, 0, .end_⟩], [(9, 3)], [(1, [2, 6])]⟩
+example : ids (combine 0 [pa, pb]).nodes = [1, 2, 3, 7, 8, 4, 5, 6] ∧ (combine 0 [pa, pb]).conns = [(9, 8)] ∧
+    (combine 0 [pa, pb]).tags = [(1, [7, 6])] := by decide
+example : stitchOKB [pa, pb] 0 (combine 0 [pa, pb]) false none = true := by decide
+example : stitchOKB [pa, pb] 0
+    ⟨[⟨1, -1, 0, 0, 0, .root⟩, ⟨2, 1, 1, 0, 0, .slab⟩, ⟨3, 2, 2, 0, 0, .end_⟩, ⟨4, -1, 0, 10, 0, .root⟩, ⟨5, 4, 1, 10, 0, .slab⟩,
+      ⟨4, 5, 2, 10, 0, .branch⟩, ⟨5, 4, 3, 10, 0, .end_⟩, ⟨6, 4, 4, 10, 0, .end_⟩], [(9, 5)], [(1, [4, 6])]⟩ false none = false := by decide
+/-- three inputs, two of them clashing with what was seen before (seeded change C01_1); inputs 0 and 2 coincide in space, so the
+id maps are read off by row position -/
+example : (ids (combine 0 [sa, sb, sa]).nodes).Nodup ∧ stitchOKB [sa, sb, sa] 0 (combine 0 [sa, sb, sa]) false none = true := by decide
+example : masterIxS .soma [sa, pb, sb] [false, false, true] = 2 ∧ masterIxS .soma [sa, pb, sb] [false, false, false] = 1 ∧
+    masterIxS .largest [sa, pb, sb] [true, false, false] = 1 ∧ masterIxS .first [sa, pb, sb] [false, true, false] = 0 := by decide
+example : concatFaces 0 [(3, [(0, 1, 2)]), (4, [(0, 1, 2), (1, 2, 3)])] = [(0, 1, 2), (3, 4, 5), (4, 5, 6)] := by decide
 
 end Navis.Props.C11
